@@ -42,49 +42,21 @@ Theorem C05_produce_decodable_proto_v2 : forall comp decomp : N -> list N -> lis
 Proof. exact proto_v2_full. Qed.
 Print Assumptions C05_produce_decodable_proto_v2.
 
-(* ---- legacy Conn writer, format 2.  The full statement (same conclusion as above with
-        timestamp(t) = UnixNano/10^6 of every record) is FALSE: defect F4. *)
-Definition C05_produce_decodable_legacy_v2_full_statement : Prop := legacy_v2_full_statement.
-
-Theorem C05_legacy_ts_refuted :
-  exists ms bytes its,
-    (ms <> [] /\ Forall wf_in ms /\ ltimes_ok ms /\ small ms /\ v2_fits idc (lbatch 0 ms)) /\
-    legacy_v2 idc 0 ms = Some bytes /\ dec_set idc bytes = Some its /\
-    map o_ts (raw_records its) = [1600000000000; 1600000000000] /\
-    map (fun r => ts_ms (i_ns r)) ms = [1600000000000; 1600000000001].
-Proof. exact legacy_ts_refuted. Qed.
-Print Assumptions C05_legacy_ts_refuted.
-
-Theorem C05_produce_decodable_legacy_v2_full_statement_false :
-  ~ C05_produce_decodable_legacy_v2_full_statement.
-Proof. exact legacy_v2_full_statement_false. Qed.
-Print Assumptions C05_produce_decodable_legacy_v2_full_statement_false.
-
-(* what does hold for every input: the bytes decode strictly to [lbatch] (lengths, CRC-32C,
-   count, offset deltas 0..n-1, keys, values, headers all right; timestamp delta of record i
-   = milliseconds(t_i - t_0), clamped to int32 milliseconds) *)
-Theorem C05_produce_decodable_legacy_v2_partial : forall comp decomp : N -> list N -> list N,
+(* ---- legacy Conn writer, format 2 (write.go writeRecord / recordbatch.go, after the fix of
+        F4: timestamp delta = timestamp(t_i) - timestamp(t_0)): for every non-empty message
+        list — whatever the times: sub-millisecond parts, decreasing, arbitrarily far apart
+        within +-2^62 ms — and every codec 0..4, the bytes decode strictly to the expected
+        batch, whose records are the inputs in order with offsets 0..n-1 and timestamp(t_i) *)
+Theorem C05_produce_decodable_legacy_v2 : forall comp decomp : N -> list N -> list N,
   (forall c b, decomp c (comp c b) = b) ->
   forall codec ms,
   ms <> [] -> Forall wf_in ms -> ltimes_ok ms -> small ms -> (codec <= 4)%N ->
   v2_fits comp (lbatch codec ms) ->
   exists bytes, legacy_v2 comp codec ms = Some bytes /\
-                dec_set decomp bytes = Some [IBatch (lbatch codec ms)].
-Proof. exact legacy_v2_general. Qed.
-Print Assumptions C05_produce_decodable_legacy_v2_partial.
-
-(* and the property itself for records whose times are whole milliseconds, at most
-   2^31-1 ms away from the first record of the batch *)
-Theorem C05_produce_decodable_legacy_v2_whole_ms : forall comp decomp : N -> list N -> list N,
-  (forall c b, decomp c (comp c b) = b) ->
-  forall codec ms,
-  ms <> [] -> Forall wf_in ms -> ltimes_ok ms -> small ms -> (codec <= 4)%N ->
-  v2_fits comp (lbatch codec ms) -> whole_ms ms ->
-  exists bytes, legacy_v2 comp codec ms = Some bytes /\
                 dec_set decomp bytes = Some [IBatch (lbatch codec ms)] /\
                 raw_records [IBatch (lbatch codec ms)] = expected_records (fun r => ts_ms (i_ns r)) ms.
-Proof. exact legacy_v2_whole_full. Qed.
-Print Assumptions C05_produce_decodable_legacy_v2_whole_ms.
+Proof. exact legacy_v2_full. Qed.
+Print Assumptions C05_produce_decodable_legacy_v2.
 
 (* ---- not proved (checked by the differential run only); kept at full strength ---- *)
 (* format 1 writers: messages magic 1, IEEE CRC over magic..value, wrapper for codecs *)
@@ -153,14 +125,16 @@ Proof.
   split; [vm_compute; reflexivity|]. split; [split; vm_compute; reflexivity|].
   eexists. split; [vm_compute; reflexivity|]. vm_compute. reflexivity.
 Qed.
-Example C05_nonvacuous_legacy_whole_ms :
-  let ms := [ {| i_off := 0; i_ns := 1600000000000000000; i_key := Some []; i_val := None; i_hdrs := [([107%N], Some [])] |};
-              {| i_off := 0; i_ns := 1600000000005000000; i_key := None; i_val := Some [1%N; 2%N]; i_hdrs := [] |} ] in
-  whole_ms ms /\ v2_fits idc (lbatch 0 ms) /\
-  option_map (fun bytes => option_map raw_records (dec_set idc bytes)) (legacy_v2 idc 0 ms) =
-  Some (Some (expected_records (fun r => ts_ms (i_ns r)) ms)).
+(* the former F4 witness (0.9 ms and 1.1 ms into consecutive milliseconds) meets the
+   hypotheses and now decodes to its own millisecond timestamps *)
+Example C05_nonvacuous_legacy_v2 :
+  f4_witness <> [] /\ Forall wf_in f4_witness /\ ltimes_ok f4_witness /\ small f4_witness /\
+  v2_fits idc (lbatch 0 f4_witness) /\
+  (exists bytes, legacy_v2 idc 0 f4_witness = Some bytes /\
+     option_map (fun its => map o_ts (raw_records its)) (dec_set idc bytes) = Some [1600000000000; 1600000000001]).
 Proof.
-  cbn zeta. split.
-  { intros m [<-|[<-|[]]]; [exists 1600000000000|exists 1600000000005]; vm_compute; repeat split; congruence. }
-  split; [split; vm_compute; reflexivity|]. vm_compute. reflexivity.
+  split; [discriminate|]. split; [repeat constructor; vm_compute; reflexivity|].
+  split; [intros m [<-|[<-|[]]]; vm_compute; split; congruence|].
+  split; [vm_compute; reflexivity|]. split; [split; vm_compute; reflexivity|].
+  eexists. split; [vm_compute; reflexivity|]. vm_compute. reflexivity.
 Qed.
